@@ -220,10 +220,22 @@ GrpcInit(lvl) ==
         \E sc \in GScripts(StepsOf(shs), lvl) :
           st = InitSt(GrpcCase(f, nsi, shs, sc))
 
+\* several instances AND failures: every shot draws its own row (16 rows, 8 shots); a's request is answered 418 when the row
+\* it renders has parity `at`, a asserts -> that shot ends; b renders a's row, so the target's log shows per row whether the
+\* shot went on.  Compared as multisets (order free).
+MFailCase(par) ==
+    [id |-> 20500000 + par, fam |-> "mfail",
+     reqs |-> [a |-> RDef(PreM("next", "users"), Use("pre", "a", "uri"), "none", TRUE),
+               b |-> RDef(NoPre, Use("pre", "a", "hdr"), "none", FALSE),
+               c |-> RDef(NoPre, NoUse, "none", FALSE)],
+     scens |-> << [name |-> "s1", weight |-> 1, items |-> <<ReqItem("a", 1, 0), ReqItem("b", 1, 0)>>] >>,
+     gun |-> "http", tmpl |-> "text", special |-> FALSE, rows |-> 16, idx |-> 7, shots |-> 8, script |-> Script("rowmod", par)]
+MFailInit == \E par \in {0, 1} : st = InitSt(MFailCase(par))
+
 GrpcSmallInit == \E f \in {1, 3}, nsi \in {2, 5} : \E sc \in GScripts(Len(NameSeqs[nsi]), 1) :
                     st = InitSt(GrpcCase(f, nsi, OneShape(Len(NameSeqs[nsi])), sc))
-InitQuick == FlowInit(0) \/ RingInit \/ IterInit \/ NextBigInit \/ FirstInit \/ TmplInit \/ GrpcInit(0)
-InitThorough == FlowInit(1) \/ RingInit \/ IterInit \/ NextBigInit \/ FirstInit \/ TmplInit \/ GrpcInit(1)
+InitQuick == FlowInit(0) \/ RingInit \/ IterInit \/ NextBigInit \/ FirstInit \/ TmplInit \/ GrpcInit(0) \/ MFailInit
+InitThorough == FlowInit(1) \/ RingInit \/ IterInit \/ NextBigInit \/ FirstInit \/ TmplInit \/ GrpcInit(1) \/ MFailInit
 InitFull  == FlowInit(2) \/ RingInit \/ IterInit
 InitSmall == (\E nsi \in {2, 6} : \E shs \in [1..Len(NameSeqs[nsi]) -> {Shape(1, 0, 0), Shape(2, 3, 4)}] :
                 \E f \in {1, 3} : \E sc \in ScriptsFor(StepsOf(shs)) : st = InitSt(FlowCase(f, nsi, shs, sc)))
